@@ -1183,6 +1183,14 @@ func Run(c *hx.Ctx) {
 			runSdsuRandom(c, gs, l)
 		}
 	}
+	if only == "" || only == "shr" {
+		// sds contexts sharing secret names (share.go); own generator stream
+		gh := &gen{r: c.Rng.Fork().Fork().Fork().Fork().Fork().Fork(), c: c}
+		runShrFixed(c, l)
+		for i := 0; i < c.N(600, 2500); i++ {
+			runShrRandom(c, gh, l)
+		}
+	}
 	if only != "" {
 		if only == "res" {
 			runResumeLate(c, l)
